@@ -84,6 +84,11 @@ func (b *bar) Done() {
 	}
 	if b.b.IsRunning() {
 		b.b.SetTotal(-1, true)
+		if b.total > 0 {
+			// mpb ignores SetTotal on a bar created with a known total: such a bar only
+			// completes when it reaches that total
+			b.b.SetCurrent(b.total)
+		}
 		b.b.Wait()
 	}
 }
